@@ -94,6 +94,9 @@ def generate(plan) -> None:
     k["tie_rate"] = 0.0 if ff else r.choice([0.0, 0.5])
     k["split_rate"] = 0.0
     k["start_gap"] = r.choice([0.0, 0.0, 0.05, 1.0, 4.9, 5.05, 5.2])  # the supplicant starts this long after the respondent
+    k["bare_code"] = r.random() < 0.5
+    # the application calls the same API again on a device that is already binding (must be refused, the attempt under way unharmed)
+    k["double_call"] = None if ff else r.choice([None, None, None, {"who": "resp", "at": 0.02}, {"who": "resp", "at": 0.6}, {"who": "supp", "at": 0.03}])
     k["supp_first"] = r.random() < 0.15
     ops = plan.d["ops"]
     if not ff and mode != "cancel_retry":
@@ -269,6 +272,8 @@ async def run(ctx) -> None:
         offer_codes = [c for c in offer_codes if c != "10E0"] if ratify else offer_codes
         confirm_code = pk[2][48:52] or None
         ratify_cmd = Command(pk[3]) if ratify else None
+        if len(offer_codes) == 1 and k("bare_code"):
+            offer_codes = offer_codes[0]  # a single code is passed bare by the public wrappers (e.g. DhwSensor.initiate_binding_process)
         res: dict = {}
 
         async def side(name, coro, bound):
@@ -288,6 +293,28 @@ async def run(ctx) -> None:
             await side("supp", supp._initiate_binding_process(offer_codes, confirm_code=confirm_code, ratify_cmd=ratify_cmd), 50.0)
 
         tasks = []
+        dc = k("double_call") if tag == "first" else None
+
+        async def again():
+            await asyncio.sleep(dc["at"])
+            dev_, what = (resp, "resp") if dc["who"] == "resp" else (supp, "supp")
+            if not dev_._bind_context.is_binding:
+                return
+            hub.count("second_call_while_binding")
+            try:
+                if what == "resp":
+                    await dev_._wait_for_binding_request(accept_codes, idx=idx, require_ratify=ratify)
+                else:
+                    await dev_._initiate_binding_process(offer_codes, confirm_code=confirm_code, ratify_cmd=ratify_cmd)
+                ctx.violate("C20", "second_call_not_refused", what, f"{tag}: a second call on the {what} that was already binding was accepted")
+            except rexc.BindingFsmError:
+                ctx.probe("second_call_refused")
+            except Exception as err:  # noqa
+                ctx.violate("C20", "second_call_wrong_exception", f"{what}:{exc_sig(err)}", f"{tag}: a second call on a binding {what} raised "
+                            f"{type(err).__name__}({err})")
+
+        if dc:
+            tasks.append(loop.create_task(again()))
         if only != "supp":
             if supp_first and only is None:
                 tasks.append(loop.create_task(do_supp()))
